@@ -6,6 +6,7 @@ import Kingdon.Properties.C01
 import Kingdon.Lemmas.SourceSigns
 import Kingdon.Lemmas.SourceBlades
 import Kingdon.Lemmas.SourceNames
+import Kingdon.Lemmas.SourceTables
 namespace Kingdon.C01
 open Kingdon Kingdon.SrcEq
 
@@ -98,6 +99,28 @@ theorem source_rejects_unsorted_basis (basis : List (List Nat)) (d : Nat) (start
     (hne : basis ≠ []) (hlen : basis.length = 2 ^ d) (huns : ¬ (basis.map List.length).Pairwise (· ≤ ·)) :
     Src.post_init_names (basis.map pyName) (Int.ofNat d) start0 = .error "AssertionError" :=
   post_init_rejects_unsorted basis d start0 hne hlen huns
+
+/-- **the stored sign table, from the source**: the eager branch of `_prepare_signs` (d ≤ 6) fills the table with the model's
+    sign for every pair of blades; for d > 6 the lazily filled `DefaultKeyDict` calls the same `_compute_sign` on demand -/
+theorem source_sign_table_is_model (c : Cfg) (h : c.admissible = true) :
+    ∃ tbl, Src.prepare_signs (algOf c) = .ok tbl ∧
+      ∀ I J, I < 2 ^ c.d → J < 2 ^ c.d → Py.dictGet? tbl (Int.ofNat I, Int.ofNat J) = some (c.computeSign I J) :=
+  prepare_signs_eq c h
+
+/-- **the Cayley table, from the source**: every entry is `'0'`, the name of the product blade, or that name with a minus sign,
+    according to the model's table -/
+theorem source_cayley_is_model (c : Cfg) (h : c.admissible = true) :
+    ∃ tbl, Src.cayley (algOf c) = .ok tbl ∧
+      ∀ nI ∈ c.basis, ∀ nJ ∈ c.basis, Py.dictGet? tbl (pyName nI, pyName nJ) = some (cayleyStr (c.cayley nI nJ)) :=
+  cayley_eq c h
+
+/-- the grade tables of the source (`indices_for_grade`, `indices_for_grades`) are the ones `algOf` assumes -/
+theorem source_grade_tables (c : Cfg) (h : c.admissible = true) :
+    (∃ tbl, Src.indices_for_grade (algOf c) = .ok tbl ∧
+      ∀ g, g ≤ c.d → Py.dictGet? tbl (Int.ofNat g) = some ((c.indicesForGrade g).map Int.ofNat)) ∧
+    (∃ tbl, Src.indices_for_grades_table (algOf c) = .ok tbl ∧
+      ∀ gs : List Int, Py.dictGet tbl gs = (algOf c).indices_for_grades gs) :=
+  ⟨indices_for_grade_eq c h, indices_for_grades_table_eq c h⟩
 
 /-- non-vacuity: on 3DPGA with kingdon's named basis the translated python computes e31 * e0 -/
 example : Src.compute_sign (algOf (Cfg.custom [0, 1, 1, 1]
